@@ -48,11 +48,38 @@ def reached_groups(ctx, entries: List[str]) -> Dict[str, List[str]]:
     return ctx.cache[key]
 
 
+def _enclosing(ctx, file: str, line: int):
+    """qualified function (innermost) and module that contain file:line"""
+    M = ctx.M
+    idx = ctx.cache.get("deps.fnindex")
+    if idx is None:
+        idx = {}
+        for q, f in M.funcs.items():
+            rel = M.mods[f.mod].rel
+            idx.setdefault(rel, []).append((f.node.lineno, getattr(f.node, "end_lineno", f.node.lineno), q))
+        ctx.cache["deps.fnindex"] = idx
+    best = None
+    for lo, hi, q in idx.get(file, []):
+        if lo <= line <= hi and (best is None or lo >= best[0]):
+            best = (lo, hi, q)
+    return best[2] if best else None
+
+
+def _closure(ctx, entries):
+    key = ("deps.closure.set", tuple(entries))
+    if key not in ctx.cache:
+        ctx.cache[key] = set(O.closure(ctx, [e for e in entries if e in ctx.M.funcs],
+                                       exclude=lambda q: CTL in q or ".playField" in q or "parse_replay" in q))
+    return ctx.cache[key]
+
+
 def dep_insts(ctx, pid: str, entries: List[str], skip_groups=()) -> List[R.Inst]:
     rid = f"{pid}.D"
     known = R.load_known()
     out: List[R.Inst] = []
     groups = reached_groups(ctx, entries)
+    clo = _closure(ctx, entries)
+    clo_files = {ctx.M.mods[ctx.M.funcs[q].mod].rel for q in clo if q in ctx.M.funcs}
     for g, hit in sorted(groups.items()):
         if g in skip_groups:
             continue
@@ -67,6 +94,15 @@ def dep_insts(ctx, pid: str, entries: List[str], skip_groups=()) -> List[R.Inst]
                 out.append(R.undec(rid, f"{g}:{spec.rid}", "", 0, f"foundation rule could not be evaluated: {e}"))
                 continue
             for i in insts:
+                # only obligations about code this property actually reaches: the function that contains the deciding
+                # construct must be in the closure (class-level tables: some function of that file must be)
+                enc = _enclosing(ctx, i.file, i.line) if i.file and i.line else None
+                if enc is not None:
+                    top = enc.split(".<locals>")[0]
+                    if enc not in clo and top not in clo:
+                        continue
+                elif i.file and i.file not in clo_files:
+                    continue
                 origin = i.fid()
                 j = R.Inst(rid, f"{g}:{i.rule}:{i.key}", i.status, i.file, i.line, i.msg, i.construct, i.idiom, spec.analysis)
                 if i.status == R.VIOL and origin in known:
